@@ -7,4 +7,10 @@ CHECKS = {
   "note": "Trusts chrono/chrono-tz for zone rules and Rust's f64 formatting/parsing; values are built through public constructors.",
   "ref": "DESIGN.md section 3 C01",
  },
+ "C02": {
+  "technique": "property-based round-trip testing (proptest) through three serde_json routes and typed T->json->T, strict projection oracle",
+  "level": "Generated-input search: well-formed values are serialised to Hayson and deserialised through to_string/from_str, to_vec/from_slice, to_value/from_value and the typed Serialize+Deserialize impls; result must be strictly equal. Held on everything explored.",
+  "note": "Trusts serde_json for JSON syntax and chrono-tz for zone rules. A grid meta tag named 'ver' is excluded (reserved by the Hayson grid encoding).",
+  "ref": "DESIGN.md section 3 C02",
+ },
 }
